@@ -57,10 +57,24 @@ class NetExecutor(TraceExecutor):
     def deliver_next(self):
         if not self.deliveries:
             raise Deadlock("wait instruction blocks and no response is left to deliver")
-        mk = self.deliveries.pop(0)
-        resp = mk()
+        while True:
+            if not self.deliveries:
+                raise Deadlock("wait instruction blocks and no response is left to deliver")
+            mk = self.deliveries.pop(0)
+            resp = mk()
+            if resp is not None:          # a conditional delivery whose request is not outstanding is skipped
+                break
         self.delivered.append(tuple(resp))
         self._handle_epr_response(resp)
+
+    def undelivered_pairs(self) -> int:
+        """pairs of outstanding requests for which no response has been handed to the executor yet"""
+        left = sum(r.pairs_left for reqs in (self._epr_create_requests, self._epr_recv_requests) for lst in reqs.values() for r in lst)
+        return left - len(self._pending_epr_responses)
+
+    def outstanding(self, creator: bool, remote_node_id, purpose_id) -> bool:
+        reqs = self._epr_create_requests if creator else self._epr_recv_requests
+        return bool(reqs.get((remote_node_id, purpose_id)))
 
     eager = False     # True: the link layer answers as early as it can (right after the request instruction), not at the wait
 
@@ -79,9 +93,12 @@ class NetExecutor(TraceExecutor):
     def _execute_command(self, subroutine_id, command):
         yield from super()._execute_command(subroutine_id, command)
         if self.eager and command.mnemonic in ("create_epr", "recv_epr"):
-            while self.deliveries:
+            # answer every request that is outstanding now; responses queued for requests not issued yet (a retry) stay queued
+            while self.deliveries and self.undelivered_pairs() > 0:
                 mk = self.deliveries.pop(0)
                 resp = mk()
+                if resp is None:
+                    continue
                 self.delivered.append(tuple(resp))
                 self._handle_epr_response(resp)
 
@@ -97,8 +114,10 @@ class NetExecutor(TraceExecutor):
 
 
 def ok_k(ex: NetExecutor, *, creator: bool, purpose_id, remote_node_id, bell_state=0, create_id=0, seq=0, goodness=0,
-         goodness_time=0, phys=None):
+         goodness_time=0, phys=None, if_outstanding=False):
     def mk():
+        if if_outstanding and not ex.outstanding(creator, remote_node_id, purpose_id):
+            return None       # e.g. the answer to a retry that never happened
         p = ex.unused_physical() if phys is None else phys
         return LinkLayerOKTypeK(type=ReturnType.OK_K, create_id=create_id, logical_qubit_id=p,
                                 directionality_flag=0 if creator else 1, sequence_number=seq, purpose_id=purpose_id,
